@@ -55,11 +55,21 @@ zpair = pair(z, z)
 natpair = pair(nat, nat)
 
 
-def lattice(pos, edges, crossing, S):
-    """Model/Lattice.v literal of the arrays exactly as lib.ser_lattice_arrays sends them to a driver"""
-    P = scaled_ints(pos, S)
+def lattice_ints(S, P, edges, crossing):
+    """Model/Lattice.v literal from integers: scale, scaled positions, edge index pairs, crossing pairs"""
     return ("(mkLattice " + z(S) + " " + lst(zpair, P) + " " + lst(natpair, [(int(j), int(k)) for j, k in edges]) + " "
             + lst(zpair, [(int(a), int(b)) for a, b in crossing]) + ")")
+
+
+def lattice(pos, edges, crossing, S):
+    """Model/Lattice.v literal of the arrays exactly as lib.ser_lattice_arrays sends them to a driver"""
+    return lattice_ints(S, scaled_ints(pos, S), edges, crossing)
+
+
+def read_lattice(c):
+    """read '<scale> <nV> x y .. <nE> j k .. <nE> cx cy ..' (lib.ser_lattice_arrays) back from a lib.Cursor: (S, P, edges, crossing)"""
+    S = c.z()
+    return S, c.list(lambda: (c.z(), c.z())), c.list(lambda: (c.int(), c.int())), c.list(lambda: (c.z(), c.z()))
 
 
 def goal(lhs, rhs):
